@@ -165,6 +165,10 @@ func genItems(rng *rand.Rand, nmax int, hasDep bool, cycle int, maxDelay int, ta
 				it.Ret = "restart"
 			}
 		}
+		if k == "sw" {
+			// what a service worker answers to the cancellation, drawn uniformly
+			it.Ret = []string{"", "ctxerr", "cancelwrap", "restartnow", "restartwrap", "err", "panic", "restart"}[rng.Intn(8)]
+		}
 		if k[0] == 's' && k != "sw" {
 			it.Ret = ""
 		}
@@ -300,6 +304,9 @@ func genScenario(rng *rand.Rand, kind string) *Scn {
 			s.Script = []string{"start", "work 0", fmt.Sprintf("sleep %d", rng.Intn(10)), "shutdown", "late"}
 		}
 	}
+	if kind != "timeout" {
+		shortenForRestarters(s)
+	}
 	return s
 }
 
@@ -331,6 +338,11 @@ func genForced(rng *rand.Rand, which string) *Scn {
 		m.Items = []Item{{Kind: "w", Delay: 40}, {Kind: "w", Delay: 5, At: "race"}, {Kind: "mh", Delay: 5, At: "race"}}
 		s.Holds = []Hold{{Point: "inc", Mod: 0, Nth: 1, UntilPoint: "sFlag", UntilMod: 0, UntilCount: 1, MaxMs: 400, AfterPoint: "workEnter", AfterCount: 1},
 			{Point: "inc", Mod: 0, Nth: 2, UntilPoint: "sCancel", UntilMod: 0, UntilCount: 1, MaxMs: 400, AfterPoint: "workEnter", AfterCount: 1}}
+	case "service-worker-answers":
+		// one service worker per kind of answer to the cancellation
+		for _, r := range []string{"", "ctxerr", "cancelwrap", "restartnow", "restartwrap", "err", "panic", "restart"} {
+			m.Items = append(m.Items, Item{Kind: "sw", Delay: rng.Intn(6), Ret: r})
+		}
 	case "stopfn-last":
 		m.StopDelay = 40
 		m.Items = []Item{{Kind: "w", Delay: 0}, {Kind: "sh", Delay: 0}}
@@ -340,7 +352,20 @@ func genForced(rng *rand.Rand, which string) *Scn {
 	}
 	s.Mods = []Mod{m}
 	s.Script = []string{"start", "work 0", "shutdown", "late"}
+	shortenForRestarters(s)
 	return s
+}
+
+// shortenForRestarters: scenarios with a service worker that answers the cancellation with ErrRestartNow use a 3 s stop
+// timeout, so that an implementation that keeps re-running it is observed waiting out the timeout at moderate cost.
+func shortenForRestarters(s *Scn) {
+	for _, m := range s.Mods {
+		for _, it := range m.Items {
+			if it.Kind == "sw" && !it.Self && (it.Ret == "restartnow" || it.Ret == "restartwrap") && s.StopTimeout > 3000 {
+				s.StopTimeout = 3000
+			}
+		}
+	}
 }
 
 // regression scenarios for the two straggler races of the pinned tree (DESIGN.md §7 item 30 and the late
@@ -378,7 +403,7 @@ func genFinding(rng *rand.Rand, which string) *Scn {
 	return s
 }
 
-var forcedKinds = []string{"self-finishers", "stopper-held-before-stopfn", "two-finishers-race-cas",
+var forcedKinds = []string{"service-worker-answers", "self-finishers", "stopper-held-before-stopfn", "two-finishers-race-cas",
 	"new-work-during-stop", "stopfn-last", "stopfn-nil-stopper-completes"}
 
 type job struct {
@@ -608,6 +633,6 @@ func main() {
 			return "corr:" + f[0]
 		},
 		Extra: func(r *hxlib.Run) map[string]any {
-			return map[string]any{"stop_timeout_ms_in_scenarios": 6000, "prompt_tolerance_ms": promptUs / 1000}
+			return map[string]any{"stop_timeout_ms_in_scenarios": "6000 (3000 with a restart-requesting service worker, 150 in timeout scenarios)", "prompt_tolerance_ms": promptUs / 1000}
 		}})
 }
